@@ -81,6 +81,7 @@ class Run:
                 o.detail = str(ex)
             self.undecided.append("%s: %s" % (u["name"], ex))
             return
+        lost = {b.opts.get("vfn", b.key): b.lost for b in blocks if getattr(b, "lost", None)}
         crate = "vu_" + re.sub(r"\W", "_", self.prop.lower() + "_" + u["name"])
         path = os.path.join(vdir, crate + ".rs")
         open(path, "w").write(text_)
@@ -110,6 +111,11 @@ class Run:
             return
         seen = set()
         for o in obs:
+            if o.vfn in lost:
+                o.status = "undecided"
+                o.detail = lost[o.vfn]
+                self.undecided.append("%s: %s" % (o.name, o.detail))
+                continue
             hits = [(fn, fr) for fn, fr in r["functions"].items() if fn == o.vfn or fn.endswith("::" + o.vfn)]
             if not hits:
                 o.status = "undecided"
